@@ -25,7 +25,7 @@ BATCH = 400
 SLOT, BF = ('slot',), ('bfslot',)
 LP = ['int', 'char', 'long', 'pint', 'double', 'uchar', 'short', 'bool', 'float', 'pchar', 'ulong', 'pfn', 'ldouble',
       'ushort', 'pvoid', 'uint', 'schar']
-BFP = [('uint', 5), ('int', 7), ('bool', 1), ('uchar', 3), ('long', 33), ('ushort', 9)]
+BFP = [('uint', 5), ('int', 7), ('bool', 1), ('uchar', 3), ('ulong', 31), ('ushort', 9)]   # >32-bit-wide bit-fields: C04 (store mask does not assemble)
 
 
 def arr(e, n): return ('arr', e, n)
@@ -515,6 +515,10 @@ def find_ccfail(chibicc, wd, cases):
                                          cwd=wd, timeout=60)
         if stt != 0:
             bad.append((j, stt, err))
+            continue
+        stt, out, err = core.run_limited(["as", "-o", os.path.join(wd, "one.o"), os.path.join(wd, "one.s")], cwd=wd, timeout=60)
+        if stt != 0:
+            bad.append((j, "as", err))
     return bad
 
 
@@ -712,6 +716,8 @@ def status_class(stt):
             return "cc1-signal"
     if stt == "timeout":
         return "cc1-hang"
+    if stt == "as":
+        return "assembler-rejects-output"
     return "cc1-rejects"
 
 
@@ -850,7 +856,7 @@ def count_types(args):
 REPLAY = r"""# rebuilds the single case with the chibicc under test and gcc, runs the dump driver
 gcc -std=gnu11 -w -fsyntax-only -DPFX=ref_ unit.c || exit 0
 $CHIBICC -cc1 -DPFX=cc_ -cc1-input unit.c -cc1-output cc.s unit.c || exit 1
-as -o cc.o cc.s || exit 1
+as -o cc.o cc.s 2>/dev/null || exit 1
 gcc -O0 -fwrapv -fno-strict-aliasing -w -std=gnu11 -fno-builtin -fno-pie -fcommon -DPFX=ref_ -c -o ref.o unit.c || exit 0
 gcc -O1 -w -std=gnu11 -fno-pie -no-pie -o drv driver.c cc.o ref.o -Wl,-z,noexecstack || exit 0
 ./drv > out.txt; rc=$?
